@@ -544,7 +544,7 @@ def v2_state_problem(state, full):
     return None
 
 
-def run_conversation(mode, turns, responses, fallback, context=None, per_turn_cpu=8.0, model="gpt-3.5-turbo-instruct", api=None, full_state_check=False):
+def run_conversation(mode, turns, responses, fallback, context=None, per_turn_cpu=8.0, model="gpt-3.5-turbo-instruct", api=None, full_state_check=False, fresh=False):
     """Drive the real `LLMRails.generate` turn by turn through the public interface `api` (plain messages, generation options with
     every log switched on, `prompt=`, an explicit `state`, a streaming handler, an instance created with `verbose=True`).
     Returns per-turn observations:
@@ -554,7 +554,7 @@ def run_conversation(mode, turns, responses, fallback, context=None, per_turn_cp
     verbose = api == "verbose"
     try:
         with cpu_watchdog(per_turn_cpu), contextlib.redirect_stdout(io.StringIO()):
-            app, llm = make_app(mode, responses, fallback, model, verbose=verbose)
+            app, llm = make_app(mode, responses, fallback, model, verbose=verbose, fresh=fresh)
     except Hang:
         out["setup"] = "hang"
         return out
